@@ -118,7 +118,87 @@ LAYOUTS = {"nospace": lambda toks: "".join(toks), "newline-before": lambda toks:
            "tabs": lambda toks: "\t".join(toks), "wide": lambda toks: "   ".join(toks)}
 
 
+# ------------------------------------------------------------------ Float64 part
+# Pairs of one precedence level whose two groupings are the same function over the reals (+ +, + -, * *, * /) can only be told apart
+# by rounding.  z3's floating-point theory finds binary64 operands (variables and literal constants) for which the two groupings differ;
+# the program is then compiled with and without optimisation and must return the value of the prescribed (left-to-right) grouping,
+# computed here with Python floats (binary64, round to nearest even: what the VM computes with).
+FP_OPS = {"+": (z3.fpAdd, lambda a, b: a + b), "-": (z3.fpSub, lambda a, b: a - b), "*": (z3.fpMul, lambda a, b: a * b), "/": (z3.fpDiv, lambda a, b: a / b)}
+
+
+def _fp_value(model, v):
+    import struct
+    bits = model.eval(z3.fpToIEEEBV(v), model_completion=True).as_long()
+    return struct.unpack("<d", struct.pack("<Q", bits))[0]
+
+
+def _fp_source(ops, vals, lits):
+    atoms = [repr(vals[i]) if i in lits else NAMES[i] for i in range(3)]
+    return ("export function f(float a, float b, float c) -> float { return " + f"{atoms[0]} {ops[0]} {atoms[1]} {ops[1]} {atoms[2]}" + "; }")
+
+
+def _fp_run(src, vals, optimize):
+    result = joint.compile_source(src, optimize=optimize)
+    r, _ = joint.vm_run(joint.link(result), "f", dict(a=vals[0], b=vals[1], c=vals[2]))
+    return r
+
+
+def _fp64(inst):
+    ops, lits = inst["ops"], set(inst.get("lits", []))
+    res = dict(paths=0, queries=0, unsat=0, sat=0, undecided=0, violations=[], known=[], errors=[], nontrivial=False, sat_replayed=0,
+               sample=dict(part="fp64", ops=ops, literals=sorted(lits)), key=repr(("fp64", ops, sorted(lits))), funcs=FUNCS + ["nsl.passes.OptimizeConstantCasts", "nsl.passes.OptimizeLoadAfterStore"])
+    rm = z3.RNE()
+    F = z3.Float64()
+    V = [z3.FP(n, F) for n in "abc"]
+    f1, f2 = FP_OPS[ops[0]][0], FP_OPS[ops[1]][0]
+    left = f2(rm, f1(rm, V[0], V[1]), V[2])
+    right = f1(rm, V[0], f2(rm, V[1], V[2]))
+    s = z3.Solver()
+    s.set("timeout", inst.get("timeout_ms", 20000))
+    lo, hi = z3.FPVal(2.0 ** -6, F), z3.FPVal(2.0 ** 10, F)
+    for v in V:
+        s.add(z3.fpIsNormal(v), z3.fpGEQ(v, lo), z3.fpLEQ(v, hi))
+    s.add(z3.fpIsNormal(left), z3.fpIsNormal(right), z3.Not(z3.fpEQ(left, right)))
+    import time as _t
+    t0 = _t.time()
+    r = s.check()
+    res["solver_time"] = round(_t.time() - t0, 3)
+    res["queries"] = 1
+    if r != z3.sat:
+        # unsat would mean the groupings cannot be told apart by rounding inside the box: nothing to observe; unknown: not decided
+        res["undecided"] = 1
+        res.setdefault("notes", []).append(f"no binary64 witness for `a {ops[0]} b {ops[1]} c` within the time limit ({r}); not decided")
+        return res
+    m = s.model()
+    vals = [_fp_value(m, v) for v in V]
+    want = FP_OPS[ops[1]][1](FP_OPS[ops[0]][1](vals[0], vals[1]), vals[2])
+    other = FP_OPS[ops[0]][1](vals[0], FP_OPS[ops[1]][1](vals[1], vals[2]))
+    if want == other:
+        res["errors"].append(f"z3's binary64 model and Python floats disagree on {vals} for {ops}")
+        return res
+    src = _fp_source(ops, vals, lits)
+    for optimize in (False, True):
+        res["paths"] += 1
+        try:
+            got = _fp_run(src, vals, optimize)
+        except joint.Rejected as ex:
+            res["violations"].append(dict(what=f"well-typed program is not compiled: {ex}", replay=dict(harness="C08", inst=inst, kind="fp64", source=src, vals=vals, optimize=optimize)))
+            continue
+        if got != want:
+            res["sat"] += 1
+            res["sat_replayed"] += 1
+            res["violations"].append(dict(what=f"`{src.split('return ')[1].split(';')[0]}` with a={vals[0]!r}, b={vals[1]!r}, c={vals[2]!r} (optimize={optimize}) returns {got!r}; the left-to-right grouping "
+                                               f"gives {want!r}" + (f" (the other grouping gives {other!r})" if got == other else ""),
+                                          replay=dict(harness="C08", inst=inst, kind="fp64", source=src, vals=vals, optimize=optimize)))
+        else:
+            res["unsat"] += 1          # the witness is decided in favour of the prescribed grouping for this build
+            res["nontrivial"] = True
+    return res
+
+
 def run_instance(inst):
+    if inst.get("part") == "fp64":
+        return _fp64(inst)
     prog, e = make_program(inst)
     fname = "f"
     is_int = inst["type"] == "int"
@@ -171,6 +251,14 @@ FUNCS = ["nsl.parser.NslParser.Parse", "nsl.parser.NslParser.p_binary_expression
 
 def replay(spec):
     inst = spec["inst"]
+    if spec.get("kind") == "fp64":
+        ops, vals = inst["ops"], spec["vals"]
+        want = FP_OPS[ops[1]][1](FP_OPS[ops[0]][1](vals[0], vals[1]), vals[2])
+        try:
+            got = _fp_run(spec["source"], vals, spec["optimize"])
+        except joint.Rejected as ex:
+            return dict(source=spec["source"], rejected=str(ex))
+        return None if got == want else dict(source=spec["source"], args=vals, optimize=spec["optimize"], returned=got, left_to_right=want)
     prog, e = make_program(inst)
     kind = spec.get("kind", "values")
     if kind == "values":
@@ -215,6 +303,11 @@ def instances(tier, seed):
                 # literal operands: a sign-like operator directly before a number must still be the binary operator in every layout
                 for lits in ({"1": 2}, {"2": 3}, {"0": 5, "2": 2}, {"1": 3, "2": 7}):
                     out.append(dict(ops=list(pair), type=t, parens=None, lits=lits, layouts=True))
+    # Float64: pairs of one level whose groupings agree over the reals, operands variables or literal constants
+    fp_pairs = [("+", "+"), ("+", "-")] + ([("*", "*"), ("*", "/")] if tier == "thorough" else [])
+    for pair in fp_pairs:
+        for lits in ([], [1, 2], [0, 2], [0, 1], [2], [1]):
+            out.append(dict(part="fp64", ops=list(pair), type="float", lits=lits, timeout_ms=20000 if tier == "quick" else 90000))
     triples = [tr for tr in itertools.product(OPS, repeat=3)]
     if tier == "quick":
         triples = rnd.sample(triples, 260)
@@ -238,7 +331,8 @@ def run(tier, seed, only=None):
                   "triples": "260 sampled by VERIF_SEED (quick, int) / all 2197 x {int,float} x 6 parenthesisations (thorough)",
                   "operands": "ints in [-1000, 1000] (products stay inside 32 bits), floats as reals; reference assumes divisor != 0, % operands >= 0",
                   "layouts": "no spaces / newlines / tabs / wide, for the int pairs without parentheses (IR listing must be identical)",
-                  "outside": "float % ; literals directly after an operator (`a -1` is one token); rounding (floats are reals)"}
+                  "float64": "+ + and + - (quick), also * * and * / (thorough): binary64 operands in [2^-6, 2^10] found by z3 (QF_FP) on which the two groupings differ, as variables and as literal constants, both optimisation levels",
+                  "outside": "float % ; rounding outside the Float64 part (floats are reals elsewhere)"}
     chk.assumptions = ["z3 Int/Real model of Python int/float (rounding abstracted)", "reference interpreter vlib/nslref/interp.py"]
     chk.shims = ["nsl.VM.float", "nsl.VM.int"]
     insts = instances(tier, seed)
